@@ -235,7 +235,9 @@ func owns(p string, f finding) bool {
 		return hasProj(proj, "Msty", "Asty") || (cl["sgr"] && hasProj(proj, "E")) || (hasProj(proj, "R") && styleOnly(f.Detail)) ||
 			(hasProj(proj, "E") && styleEventDiff(f.Detail))
 	case "C09":
-		return f.Kind == "framing" || hasProj(proj, "G") || ((cl["unknown"] || cl["dcs"] || cl["c0other"]) && proj != "") || (cl["osc"] && proj != "")
+		// XTMODKEYS (CSI > … m) for a resource the emulator does not have is an unrecognised sequence too
+		return f.Kind == "framing" || hasProj(proj, "G") || ((cl["unknown"] || cl["dcs"] || cl["c0other"]) && proj != "") || (cl["osc"] && proj != "") ||
+			(strings.Contains(f.Tags, "[62.109") && proj != "")
 	case "C10":
 		return (cl["bell"] && hasProj(proj, "E")) || hasProj(proj, "L")
 	case "C14":
@@ -251,7 +253,8 @@ func owns(p string, f finding) bool {
 			inactive = hasProj(proj, "M", "R0")
 		}
 		return (cl["mode"] && proj != "") || hasProj(proj, "V") || (inactive && f.Kind == "diverge" && f.Tags != "init" && !cl["resize"]) ||
-			(f.Alt && hasProj(proj, "Mkbd", "Akbd")) // keyboard state going wrong while the alternate buffer is active
+			(f.Alt && hasProj(proj, "Mkbd", "Akbd")) || // keyboard state going wrong while the alternate buffer is active
+			((strings.Contains(f.Tags, "[0.115") || strings.Contains(f.Tags, "[0.117")) && hasProj(proj, "Mgeo", "Ageo")) // the saved cursor is kept per buffer
 	case "C18":
 		// the initial sizing is a Resize too (from the 80x24 default to the case's size)
 		return (cl["resize"] || f.Tags == "init") && proj != ""
